@@ -11,7 +11,7 @@ TB = ("Trusted: rustc's name resolution, type checking and const evaluation as e
 
 CLAIMS = {
     "C01": dict(
-        technique="conversion route graph from resolved derive output; TypeId guard table; symbolic inverse laws (exact rational normal forms); alpha dataflow",
+        technique="conversion route graph from resolved derive output; TypeId guard table; symbolic inverse laws (exact rational normal forms); alpha dataflow; type-alias table",
         category="other",
         text=("Structural and algebraic necessary conditions, for every type pair at once: the >250 derived FromColorUnclamped impls are "
               "expanded (from the resolved callees of the macro output) into chains of hand-written hops that must terminate, be loop-free, "
@@ -21,7 +21,7 @@ CLAIMS = {
               "inputs; the four rectangular/polar pairs invert each other under the trigonometric axioms (cos²+sin²=1, atan2 of a scaled (cos,sin)); "
               "where a direct hand-written edge lies beside a two-hop hand-written path (Luma/Xyz/Yxy) both give the same value; every transfer "
               "function pair equals the published, mutually inverse pair on the whole real line; hard-coded matrix pairs are mutual inverses; attaching alpha splits it off, converts only the colour and passes "
-              "alpha through. Does not decide the floating-point round-trip error or the Ok*/HSLuv searches."),
+              "alpha through. Does not decide the floating-point round-trip error or the Ok*/HSLuv searches. Round 5: the deprecated GammaFn pair is mutually inverse ((x^a)^b with a·b = 1); the 39 alpha type aliases (Srgba, Hsla, …) are Alpha<the colour their name says, T>."),
         design_ref="DESIGN.md §3 C01",
     ),
     "C02": dict(
@@ -33,7 +33,7 @@ CLAIMS = {
               "definition, piece by piece including which piece owns each threshold; RGB<->XYZ matrices must equal the matrix derived from the "
               "standard's primaries and white point and be mutual inverses, white points equal ASTM E308, Oklab M1/M2 equal the published "
               "matrices, and the step of the published knee constants is < 1e-6. Decides formula/constant agreement; does not decide the "
-              "accuracy of powf/cbrt/atan2 or a tolerance over the gamut; Okhsl/Okhsv/HSLuv bodies are covered by C15's constant checks."),
+              "accuracy of powf/cbrt/atan2 or a tolerance over the gamut; Okhsl/Okhsv/HSLuv bodies are covered by C15's constant checks. Round 5: the four hand-written Oklab <-> Okhsl / Okhsv bodies equal Ottosson's published algorithm including the white/black/achromatic shortcuts, with find_cusp, get_Cs, toe and oklab_to_linear_srgb uninterpreted (OK-REF, shared with C15); the named-standard aliases (Srgb, LinSrgb, AdobeRgb, …) resolve to the standard their name says."),
         design_ref="DESIGN.md §3 C02",
     ),
     "C03": dict(
@@ -47,7 +47,7 @@ CLAIMS = {
               "unclamped value and return that same value in Ok or inside OutOfBounds; Alpha clamps colour and alpha separately; a generated witness "
               "crate lets rustc's trait solver decide that the contract traits actually apply to X, Alpha<X, T>, [X] and [Alpha<X, T>] for all 26 "
               "types and f32/f64 (an impl whose where-clause no component type satisfies makes is_within_bounds fall through Deref and ignore alpha). "
-              "Does not decide rounding of the HWB division (w/s + b/s may exceed 1 by an ulp)."),
+              "Does not decide rounding of the HWB division (w/s + b/s may exceed 1 by an ulp). Round 5: a slice is within bounds iff every item is: the [T] impl ANDs in every item and leaves early only when every lane of the accumulator is false (BOUNDS-SLICE)."),
         design_ref="DESIGN.md §3 C03",
     ),
     "C08": dict(
@@ -59,7 +59,7 @@ CLAIMS = {
               "unpremultiply∘premultiply are discharged on the code's own normal forms; all 33 Blend and 12 Compose dispatchers must pass "
               "the function named after the method with source and backdrop in order; the three constructors of BlendInput fill `color` with the "
               "straight colour, `color_pre` with the premultiplied one and `alpha` (terms over the uninterpreted Premultiply methods). Decides the formula clauses over the reals; "
-              "does not decide rounding or [0,1] containment where no final clamp provides it."),
+              "does not decide rounding or [0,1] containment where no final clamp provides it. Round 5: every public conversion between a straight colour and its premultiplied form is premultiply / unpremultiply itself (C::from(PreAlpha<C>) for 9 types divides by alpha under the valid-divisor guard; PreAlpha constructors) (CONV)."),
         design_ref="DESIGN.md §3 C08",
     ),
 }
@@ -74,7 +74,7 @@ CLAIMS["C10"] = dict(
           "from the type's accessors and every other component untouched; HWB moves whiteness and blackness in opposite directions; "
           "blanket Darken/Desaturate negate the argument; Alpha and slice forms forward to the same-named operator with the same argument "
           "and keep alpha; colour-scheme helpers use the documented shifts; arithmetic impls apply the trait's operator to every component. "
-          "Does not decide monotonicity or boundedness under rounding."),
+          "Does not decide monotonicity or boundedness under rounding. Round 5: colour schemes on Alpha-wrapped Lab-like colours give the bare colour's results in the same order with self.alpha."),
     design_ref="DESIGN.md §3 C10",
 )
 
@@ -87,7 +87,7 @@ CLAIMS["C09"] = dict(
           "and from Lch carry (l,a,b,chroma); Euclidean, HyAB, Delta E and the improved variants of every implementing type equal their closed "
           "forms with Huang et al.'s coefficients, are symmetric and zero at identity as exact normal forms; polar impls go through the "
           "rectangular form; WCAG contrast = (max+0.05)/(min+0.05), symmetric, with the five WCAG 2.1 thresholds. Does not decide the symmetry "
-          "of CIEDE2000 across its hue case split or the [1,21] range. The mean hue is Sharma's three-case eq. 14 (the pinned tree's single-wrap form was defect F12, repaired)."),
+          "of CIEDE2000 across its hue case split or the [1,21] range. The mean hue is Sharma's three-case eq. 14 (the pinned tree's single-wrap form was defect F12, repaired). Round 5: the deprecated RelativeContrast API — contrast_ratio against the WCAG formula, the five predicates' thresholds, 16 impls feeding it the luminance of self and other — and the two relative_luminance impls."),
     design_ref="DESIGN.md §3 C09",
 )
 
@@ -113,7 +113,7 @@ CLAIMS["C06"] = dict(
           "value reaches to_bits); uint->float = x/MAX (0 -> 0, MAX -> 1); widening = (x<<BITS)|x with MAX_t = MAX_s·(2^BITS+1), longer steps "
           "through the next width; narrowing = cast(clamp(round(x·MAX_t/MAX_s))) with MAX_s/MAX_t integral, hence narrow(widen(x)) = x; "
           "max_intensity is 1 / MAX; all 34 into_format/from_format methods map each component of the same field through exactly one "
-          "FromStimulus/FromAngle step, and the 16 `From` impls between formats of one colour type convert in one hop (no intermediate format, which would round twice). Does not decide nearest-integer claims that depend on floating-point rounding of x·MAX."),
+          "FromStimulus/FromAngle step, and the 16 `From` impls between formats of one colour type convert in one hop (no intermediate format, which would round twice). Does not decide nearest-integer claims that depend on floating-point rounding of x·MAX. Round 5: an f64 is narrowed to f32 only as the last step of a conversion whose result is f32, and no u32 is cast to f32 (24-bit significand) — both invisible to algebra over the reals (CAST-NARROW)."),
     design_ref="DESIGN.md §3 C06",
 )
 
@@ -131,7 +131,7 @@ CLAIMS["C07"] = dict(
           "in the domain, non-negative by its shape (sum of squares, abs, even powers, max with 0, roots), or one of 24 reviewed table lines. 584 conversion / clamp / operator / "
           "blend / colour-difference bodies contain no unwrap, expect, panic!, unreachable! or slice indexing. Not decided: overflow of "
           "finite intermediates, NaN from transcendental functions, rounding that zeroes an algebraically non-zero divisor where the table "
-          "argues over the reals."),
+          "argues over the reals. Round 5: the division audit is closed-world — every file under palette/src is scanned, not a list of anchored files (a division added to Alpha's Mix was outside the list)."),
     design_ref="DESIGN.md §3 C07",
 )
 
@@ -153,7 +153,7 @@ CLAIMS["C05"] = dict(
 )
 
 CLAIMS["C04"] = dict(
-    technique="path-condition dominance on symbolically evaluated cast functions; who-may-call lint on resolved callees; compiler-decided layout witnesses (const asserts); forwarding lint",
+    technique="path-condition dominance on symbolically evaluated cast functions; who-may-call lint on resolved callees; compiler-decided layout witnesses (const asserts); forwarding lint; forwarder lint over macro-generated std conversion impls",
     category="other",
     text=("For every function of cast::array / cast::uint and every non-diverging path: each type-changing pointer cast or transmute_copy between "
           "a colour and its Array/Uint (or components) is dominated by the size_of equality of exactly those two types and, unless it is a "
@@ -166,7 +166,7 @@ CLAIMS["C04"] = dict(
           "map_*_in_place read and write the same place once inside ManuallyDrop. A generated witness crate lets rustc decide ~930 const "
           "assertions: size, alignment and offset_of every field in declaration order (alpha last) for all 26 ArrayCast structs x 5 "
           "component types, Alpha, PreAlpha, Packed. All 138 cast-trait methods forward to the function of the same direction, ownership "
-          "and container shape. Does not decide absence of UB under every input."),
+          "and container shape. Does not decide absence of UB under every input. Round 5: the 552 std conversion impls generated by macros/casting.rs (AsRef/AsMut/From/TryFrom between colours and arrays, slices, boxed arrays, integers) are thin forwarders to the cast function of their direction and ownership (CAST-STD); a by-value transmute_copy must move out of a ManuallyDrop (or forget) source (CAST-OWN)."),
     design_ref="DESIGN.md §3 C04",
 )
 
@@ -182,12 +182,12 @@ CLAIMS["C13"] = dict(
           "unwinding); the two modules have equal callee sequences modulo the clamped<->unclamped swap; Vec/Box impls are, on every path, the "
           "in-place map of the argument itself with the conversion of the same trait (no early return, no fresh container for the empty case), and the in-place maps read/write the same place once under ManuallyDrop without any allocating API "
           "(same address, length, capacity). Borrow exclusivity while a guard lives is enforced by the type signature (&'a mut). "
-          "Does not decide value equality beyond 'the stored value is the out-of-place conversion of the original'."),
+          "Does not decide value equality beyond 'the stored value is the out-of-place conversion of the original'. Round 5: chaining methods return the guard kind they are named after with the current type changed and the original type U kept (GUARD-SIG, from the compiler's type of the method body)."),
     design_ref="DESIGN.md §3 C13",
 )
 
 CLAIMS["C12"] = dict(
-    technique="path-condition dominance on symbolically evaluated parsers (validation before slicing); enumeration of each FromStr decision tree; pack/unpack inverse law; data agreement of generated tables with their source",
+    technique="path-condition dominance on symbolically evaluated parsers (validation before slicing); enumeration of each FromStr decision tree; pack/unpack inverse law; data agreement of generated tables with their source; type-alias table",
     category="other",
     text=("For all strings: on every path of the 8 hex helpers the whole argument has passed validate_hex_digits (= bytes().all(is_ascii_hexdigit)) "
           "before any byte-range slice or from_str_radix, so multi-byte characters cannot panic and no sign reaches the integer parser; the "
@@ -199,7 +199,7 @@ CLAIMS["C12"] = dict(
           "from_be_bytes/to_be_bytes; From<u32> uses ARGB for Rgb and RGBA for Rgba both ways. All 148 lines of svg_colors.txt have their "
           "constant and map entry (lower-case, unique, no others); named::from_str is the map lookup, and every early-out in front of it is evaluated "
           "on each of the 148 keys and must let all of them through. Not decided: the phf displacement tables (that lookup of a listed name "
-          "lands on its entry) in the quick tier."),
+          "lands on its entry) in the quick tier. Round 5: the packing API around ComponentOrder (into_u32/from_u32, u16 forms, From between colours, Packed and bare integers) as terms over uninterpreted O::pack/unpack with the documented default orders (PACK-FWD); the Packed* aliases name the order they resolve to (ALIAS)."),
     design_ref="DESIGN.md §3 C12",
 )
 
@@ -215,7 +215,7 @@ CLAIMS["C14"] = dict(
           "with one method, equal white points return the input - hence the source white maps onto the destination white. For xyz = k·white "
           "(all k>0, all white points) Lab gives a=b=0, Luv u=v=0, L*=100 at k=1, zero (a,b) gives zero chroma, Luma->Rgb fills three equal "
           "channels, a gray Luma lands on the white point's chromaticity in Yxy and on a multiple of the white point in Xyz; Oklab of the D65 literal is (1,0,0) within 5e-4 (computed residual 3.7e-5). Not decided: CAM16 J=100 for the adopted "
-          "white, floating-point residuals of round trips."),
+          "white, floating-point residuals of round trips. Round 5: caller-supplied white points of adaptation_matrix reach the diagonal normalised to Y = 1 (ADAPT-NORM); the Lms aliases name their matrix."),
     design_ref="DESIGN.md §3 C14",
 )
 
@@ -233,7 +233,7 @@ CLAIMS["C15"] = dict(
           "tC1 a, tC1 b)) - 1 whose hand-expanded f', f'' equal the symbolic derivatives, with u < 0 -> FLT_MAX and the minimum over channels; it reuses the 15 "
           "matrix literals of oklab_to_linear_srgb; LuvBounds::from_lightness = the HSLuv reference bound (M, kappa, epsilon, six lines), "
           "intersection length formula, minimum over lines; hexcone: on all 26 orderings in-gamut RGB gives S in [0,1], V = max channel, "
-          "L = mid-range (Rgb<->Hsv/Hsl/Hwb formulas themselves: C02/C17). These are necessary conditions of the property."),
+          "L = mid-range (Rgb<->Hsv/Hsl/Hwb formulas themselves: C02/C17). These are necessary conditions of the property. Round 5: the four Oklab <-> Okhsl / Okhsv conversion bodies against Ottosson's algorithm on the documented ranges, including the end-point shortcuts (OK-REF)."),
     design_ref="DESIGN.md §3 C15",
 )
 
@@ -269,7 +269,7 @@ CLAIMS["C17"] = dict(
           "[Color<T>;N] <-> Color<V> conversions map lane i of each field (hue, alpha) to element i; the scalar and mask-generic arms of "
           "Rgb->Hsv and Rgb->Hsl are equal (hue mod 360) and equal the hexcone model on all 26 sign/ordering regions of (r,g,b) (thorough: "
           "plus negative channels). Not decided: f32 vs f64 accuracy, accuracy of wide's transcendental approximations, wide's round-half-even "
-          "vs f32::round (Round::round is not reachable from a SIMD conversion)."),
+          "vs f32::round (Round::round is not reachable from a SIMD conversion). Round 5: the one allowed mask reduction outside the scalar arm is pinned to its method and polarity (`is_false`, un-negated)."),
     design_ref="DESIGN.md §3 C17",
 )
 
@@ -285,7 +285,7 @@ CLAIMS["C18"] = dict(
           "component f is colour i's f'; base cases build every component with the same constructor. All 104 collection impls on Alpha "
           "(get/set/push/pop/clear/drain/...) cover every alpha collection (free, unbounded alpha parameter): where one does not apply the call falls "
           "through Deref to the colour's method of the same name and skips the alpha. Decides the lockstep structure, a "
-          "necessary condition of the Vec<Color> equivalence, not the equivalence over histories itself; std's Vec/slice semantics trusted."),
+          "necessary condition of the Vec<Color> equivalence, not the equivalence over histories itself; std's Vec/slice semantics trusted. Round 5: copied / cloned / as_refs / set of reference-component colours and hues are field-wise over every component (REFCOMP, 342 bodies); iterator / collection trait impls of struct-of-arrays types may only override methods that have a lockstep rule (nth, nth_back, last added)."),
     design_ref="DESIGN.md §3 C18",
 )
 
@@ -301,7 +301,7 @@ CLAIMS["C19"] = dict(
           "of the converted ends and convert the sample back. All 26 Standard distributions stay inside the type's own IsWithinBounds box "
           "for all variates in [0,1) (interval evaluation incl. sqrt/cbrt), hues in [0,360). Cone/bicone/cylinder samplers use three "
           "independent variates through the inverse CDFs of the volume-uniform density (cbrt, bicone inverse, linear; sqrt for the radius), "
-          "invert_*.sample_* = id. Not decided: statistical uniformity, monotonicity of the transforms between the end points, rand itself."),
+          "invert_*.sample_* = id. Not decided: statistical uniformity, monotonicity of the transforms between the end points, rand itself. Round 5: the uniform samplers of the shaped spaces draw in CDF space — three distinct variates, radius = k·sqrt(d), height = k·F⁻¹(d), bounds = the CDFs of the two ends (VOL-UNIFORM): this decides the structural half of the volume-uniformity clause for sub-ranges."),
     design_ref="DESIGN.md §3 C19",
 )
 
